@@ -102,7 +102,7 @@ fn d(n: &str) -> String { format!("D{}", hex(n.as_bytes())) }
 
 pub fn alphabet() -> Vec<String> {
     vec![
-        a("Transfer-Encoding", b"chunked"), a("transfer-encoding", b"gzip, chunked "), a("TRANSFER-ENCODING", b"gzip"),
+        a("Transfer-Encoding", b"chunked"), a("transfer-encoding", b"gzip, chunked "), a("TRANSFER-ENCODING", b"gzip"), a("Transfer-Encoding", b"gzip,\tchunked"),
         a("Connection", b"close"), a("connection", b"keep-alive,\tClose "), a("Connection", b"keep-alive"),
         a("Content-Length", b"5"), a("content-length", b" 7\t"), a("Content-Length", b"x"), a("CONTENT-LENGTH", b"\xff"),
         r("Transfer-Encoding", b"identity"), r("Connection", b"CLOSE"), r("content-length", b"9"),
@@ -115,7 +115,7 @@ pub fn alphabet() -> Vec<String> {
 pub fn gen(ctx: &Ctx) {
     let mut rng = Rng::new(ctx.seed, "headers");
     let mut out = Out::new(&ctx.dir, "headers");
-    out.rule = "operation sequences over a 22-op alphabet (add/replace/remove with mixed-case names, padded and mixed-case token lists, valid/invalid/non-UTF-8 \
+    out.rule = "operation sequences over a 23-op alphabet (add/replace/remove with mixed-case names, padded and mixed-case token lists, valid/invalid/non-UTF-8 \
                 content-length values, set_*): exhaustive to length 3 (thorough: 4), random sequences of length 5..40 with random token lists; one history in five starts from Headers::from(Vec) / Headers::from(slice) over its leading adds or from new_nodate(), and all single / pairs of alphabet adds go through both bulk constructors; \
                 non-trivial = some cached answer (chunked / close / content length) is set at some point of the history".into();
     let al = alphabet();
